@@ -378,14 +378,34 @@ TRUSTED_BASE = [
 ]
 
 
+TRANSLATOR_NOTES = []
+
+
 def regenerate_tables():
     """the translators: coq/Gen/*.v are regenerated from /repo's current source on every run (a file is rewritten only when its text
     changes, so unchanged sources cost no rebuild).  Returns [(translator, message)] for sources a translator cannot read."""
     bad = []
     for t in ("cmdtables", "regiontables", "phytables"):
-        rc, out = sh([sys.executable, os.path.join(VERIF, "tools", "rs2v", t + ".py")], cwd=VERIF, timeout=120)
+        args = []
+        if t == "regiontables":
+            # second reading of the same tables: the compiled code, asked through the cfg(lora_rs_verif) hooks (`vph regiontables`).
+            # The two readings must agree; when the source text is not readable by the textual translator (tables built by
+            # const fns, loops, ...) the compiled reading alone regenerates the file.
+            okh, _ = build_harness()
+            if okh:
+                try:
+                    p = subprocess.run([harness_bin()], input="".join("regiontables %d\n" % r for r in range(9)),
+                                       capture_output=True, text=True, timeout=300)
+                    dump = os.path.join(BUILD, "regiontables.dump")
+                    open(dump, "w").write(p.stdout)
+                    args = ["--dump", dump]
+                except (OSError, subprocess.SubprocessError):
+                    pass
+        rc, out = sh([sys.executable, os.path.join(VERIF, "tools", "rs2v", t + ".py")] + args, cwd=VERIF, timeout=120)
         if rc != 0:
             bad.append((t, out))
+        elif "note:" in out:
+            TRANSLATOR_NOTES.append(out.strip()[-400:])
     return bad
 
 
@@ -429,6 +449,8 @@ def proof_stage(rep, prop_id, theorems, allowed_axioms=(), extra_targets=()):
     rep.cov["trusted_base"] = list(TRUSTED_BASE)
     failed = []
     rep.cov["translators"] = "tools/rs2v/{cmdtables,regiontables,phytables}.py regenerated coq/Gen from /repo's working tree before the build"
+    if TRANSLATOR_NOTES:
+        rep.cov["translator_notes"] = list(TRANSLATOR_NOTES)
     clo = coq_closure("Props/%s" % prop_id)
     for t in tfail:
         if clo is not None and GEN_OF.get(t[0]) not in clo:
